@@ -13,7 +13,7 @@ fail() { echo "CONFIRM-FAILED $PID/$L: $1" | tee -a $LOG; git -C /repo worktree 
 git -C /repo worktree remove --force $WT 2>/dev/null
 git -C /repo worktree add --detach $WT HEAD -q || fail "worktree"
 cd $WT
-EXTRA=$(grep -l "thread_pool\|ThreadPool\|sort_strings_parallel\|digest\|string/\|parallel_multiway_merge\|tlx/string.hpp\|die" $SRC/demo.cpp >/dev/null 2>&1 && echo yes)
+EXTRA=$(grep -l "thread_pool\|ThreadPool\|parallel_sample_sort\|sort_strings_parallel\|digest\|string/\|parallel_multiway_merge\|tlx/string.hpp\|die" $SRC/demo.cpp >/dev/null 2>&1 && echo yes)
 LIBSRC=""
 if grep -q "g++.*\.cpp.*tlx/" $SRC/notes.md 2>/dev/null || [ -n "$EXTRA" ]; then
   LIBSRC=$(ls $WT/tlx/*.cpp $WT/tlx/*/*.cpp | grep -v backtrace | tr '\n' ' ')
